@@ -82,8 +82,8 @@ PostConnected == \A i \in 1..Len(steps) : Connected(scn.dag, AsClient(steps[i]))
 \* a deepening fetch retires exactly the old boundary commits that now lie strictly inside the
 \* requested depth of the FETCHED tips; every other old boundary commit stays shallow:
 \*   shallow' = (old \ unshallowed) \cup new
-Interior == IF Last.opt.depth <= 1 THEN {}
-            ELSE Within(scn.dag, HeadTips(Last.srv, Last.opt) \cup TagTips(Last.srv, Last.opt), Last.opt.depth - 2)
+Interior == IF Last.opt.depth <= 1 \/ Len(steps) < 2 THEN {}
+            ELSE Within(scn.dag, DepthTips(Last.srv, AsClient(steps[1]), Last.opt), Last.opt.depth - 2)
 OldBoundaryKept == (Len(steps) = 2 /\ Last.opt.depth > 0) =>
                      /\ (steps[1].shallow \ Interior) \subseteq Last.shallow
                      /\ Last.shallow \cap Interior = {}
